@@ -118,6 +118,30 @@ theorem status_handler_garbage (s : Nat) (kw nr : Bool) (hs0 : s ≠ 0) (hs200 :
     unfold excMakeResponse; split <;> simp_all
   simp [ladder, he, stateFromTable, hu, callT, hv, coerce, toResponse_junk, guarded, R.ok, R.err]
 
+/-- a status handler that aborts with an ordinary status: no second table lookup - the 500 page -/
+theorem status_handler_aborts (s : Nat) (kw nr : Bool) (hs0 : s ≠ 0) (hs200 : s ≠ 200)
+    (hu : s ∈ app.userStatus) (s' : Nat) (kw' nr' : Bool) (h0 : s' ≠ 0) (h200 : s' ≠ 200)
+    (hv : p (.status s) = .raise (.http s' kw' nr')) :
+    ladder app p t (.http s kw nr) = (t ++ [.status s, .page 500], some (pageResp 500)) := by
+  have he : excMakeResponse (.http s kw nr) = none := by
+    unfold excMakeResponse; split <;> simp_all
+  have he' : excMakeResponse (.http s' kw' nr') = none := by
+    unfold excMakeResponse; split <;> simp_all
+  simp [ladder, he, he', stateFromTable, hu, callT, hv, coerce, toResponse, guarded, R.ok]
+
+/-- ... but the special codes and an abort carrying a response keep their meaning there (the model states
+    the current behaviour; the property text does not say which of the two readings is meant) -/
+theorem status_handler_aborts_special (s : Nat) (kw nr : Bool) (hs0 : s ≠ 0) (hs200 : s ≠ 200)
+    (hu : s ∈ app.userStatus) (e : Exc) (r : Resp) (he' : excMakeResponse e = some r)
+    (hv : p (.status s) = .raise e) :
+    ladder app p t (.http s kw nr) = (t ++ [.status s], some r) := by
+  have he : excMakeResponse (.http s kw nr) = none := by
+    unfold excMakeResponse; split <;> simp_all
+  have hshape : (∃ a b c, e = .http a b c) ∨ (∃ q, e = .httpResp q) := by
+    cases e <;> simp [excMakeResponse] at he' ⊢
+  rcases hshape with ⟨a, b, c, rfl⟩ | ⟨q, rfl⟩ <;>
+    simp [ladder, he, he', stateFromTable, hu, callT, hv, coerce, toResponse, guarded, R.ok]
+
 /-- the exception handler itself failing (an Exception): 500 page -/
 theorem exception_handler_failure (c i : Nat) (hf : findExcHandler app (.other c) = some i)
     (c' : Nat) (hv : p (.exch i) = .raise (.other c')) :
